@@ -57,4 +57,6 @@ def execute(spec):
 
 CHECKS = [
     Check("conditional_sim", execute, strategy=cond_worlds, budget={"quick": 2500, "thorough": 50000}),
+    Check("scripted_sim", execute, strategy=lambda tier: specs.scripted_worlds(flags=cond_flags(), release_kinds=("fixed", "fixed", "poisson", "closed_loop")),
+          budget={"quick": 500, "thorough": 30000}),
 ]
